@@ -106,6 +106,8 @@ PROPS = {
                                 imm_reads_per_version=(0, 1), meta_per_version=(0, 1), nkeys=5,
                                 thrs=[120, 150, 200, 300, 400, 0], caches=[0, 0, 1, 3, 100], empty_out=0.3),
                 title="storage = reachable set"),
+    "C18": dict(kind="v1hist", quick_n=1500, thorough_n=10000, gen="kv", mode="kv", profile=None,
+                title="ordered-KV contract of the bundled backends"),
     "C14": dict(kind="v1hist", quick_n=1500, thorough_n=4000,
                 profile=Profile(meta_per_version=(2, 5), p_load_old=0.25, p_prune=0.3, p_reopen=0.25,
                                 check_all_versions=0.2, p_noop_version=0.35),
@@ -151,8 +153,10 @@ def corpus(prop):
 
 def nontrivial(lines):
     """a history is non-trivial if it commits >= 2 versions and makes >= 1 structural change"""
-    saves = sum(1 for l in lines if l == "save")
-    writes = sum(1 for l in lines if l.startswith("set ") or l.startswith("rm "))
+    if lines and lines[0].startswith("knew"):
+        return sum(1 for l in lines if l.startswith("kset") or l.startswith("kbwrite")) >= 2
+    saves = sum(1 for l in lines if l == "save" or l.startswith("savecs") or l.startswith("import"))
+    writes = sum(1 for l in lines if l.startswith("set ") or l.startswith("rm ") or l.startswith("savecs") or l.startswith("import"))
     return saves >= 2 and writes >= 1
 
 
@@ -188,13 +192,16 @@ def run_check(prop, tier, seed, n_override=None):
                 return 1
         proof_broken = broken is not None or proof["obligations"] != proof["discharged"] or bool(proof["grep_gate"])
         n = n_override or (cfg["thorough_n"] if (tier == "thorough" or proof_broken) else cfg["quick_n"])
-        if cfg.get("gen") == "c11":
+        if cfg.get("gen") == "kv":
+            hists = corpus(prop) + v1gen.gen_kv(seed, n)
+        elif cfg.get("gen") == "c11":
             hists = corpus(prop) + v1gen.gen_c11(seed, n)
         elif cfg.get("gen") == "c10":
             hists = corpus(prop) + v1gen.gen_c10(seed, n)
         else:
             hists = corpus(prop) + v1gen.generate(seed, n, cfg["profile"])
-        results = C.run_parallel(hists, work)
+        mode = cfg.get("mode", "exec")
+        results = C.run_parallel(hists, work, mode=mode)
         oracle = cfg.get("oracle")
         ops = 0
         agreed = 0
@@ -221,11 +228,11 @@ def run_check(prop, tier, seed, n_override=None):
         nviol = 0
         for h, d in violations[:3]:
             def still(lines, d0=d):
-                r = C.run_one(lines, work, tag="shrink")
+                r = C.run_one(lines, work, mode=mode, tag="shrink")
                 d1 = C.first_divergence(r, oracle)
                 return d1 is not None and d1["kind"] == d0["kind"] and not match_known(prop, lines, d1)
             small = C.shrink(h["lines"], still, budget_s=45 if tier == "quick" else 120)
-            r = C.run_one(small, work, tag="final")
+            r = C.run_one(small, work, mode=mode, tag="final")
             d1 = C.first_divergence(r, oracle) or d
             nviol += 1
             path = C.write_replay(prop, seed, nviol, {
@@ -280,7 +287,7 @@ def replay(prop, path):
     C.prepare(prop)
     work = C.mkwork(prop)
     try:
-        res = C.run_one(lines, work, tag="replay")
+        res = C.run_one(lines, work, mode=PROPS[prop].get("mode", "exec"), tag="replay")
         for l, i, m in zip(res["lines"], res["impl"], res["model"]):
             mark = "   " if (m in (None, "?") or C.split_oracle(i)[0] == m) else "!!!"
             print("%s %s\n      impl : %s\n      model: %s" % (mark, l, i, m))
